@@ -162,6 +162,23 @@ theorem c13_unselected_untouched (points : List V3) (mask : List Bool) (buf : Li
   have e1 : mask[i]?.getD false = false := by simpa [List.getD_eq_getElem?_getD] using h
   simp [asaFrameBuf, List.getElem?_map, List.getElem?_zipIdx, hi, e1]
 
+/-- **a selection without members computes nothing**: every slot keeps the value the wrapper preset (−1), for every structure -/
+theorem c13_empty_selection (points : List V3) (buf : List Nat) (atoms : List Atom) (i : Nat) (hi : i < atoms.length) :
+    (asaFrameBuf points (maskOf atoms.length (some [])) buf atoms)[i]? = some (buf.getD i 0) := by
+  apply c13_unselected_untouched _ _ _ _ _ _ hi
+  simp [maskOf, List.getD_eq_getElem?_getD, List.getElem?_map, List.getElem?_range, hi]
+
+/-- … whereas `None` selects every atom: taking an empty selection for `None` (seeded change C13-empty-selection-becomes-all-atoms) computes
+every area instead of none -/
+theorem c13_none_selects_all (n i : Nat) (hi : i < n) : (maskOf n none).getD i false = true ∧ (maskOf n (some [])).getD i false = false := by
+  constructor
+  · simp [maskOf, List.getD_eq_getElem?_getD, List.getElem?_replicate, hi]
+  · simp [maskOf, List.getD_eq_getElem?_getD, List.getElem?_map, List.getElem?_range, hi]
+
+/-- a listed atom is selected, an unlisted one is not -/
+theorem c13_mask_spec (n i : Nat) (idx : List Nat) (hi : i < n) : (maskOf n (some idx)).getD i false = idx.contains i := by
+  simp [maskOf, List.getD_eq_getElem?_getD, List.getElem?_map, List.getElem?_range, hi]
+
 /-- residue mode: the value of group `g` is the sum over the atoms mapped to `g` -/
 theorem c13_group_sum (nGroups : Nat) (mapping vals : List Nat) (g : Nat) (hg : g < nGroups) :
     (groupSums nGroups mapping vals)[g]? = some ((((mapping.zip vals).filter (fun p => p.1 == g)).map (·.2)).sum) := by
